@@ -73,6 +73,7 @@ def _gen_facts_locked(repo, crate, out, target):
     e['FACTGEN_CRATE'] = crate
     e['CARGO_TARGET_DIR'] = target
     e['CARGO_INCREMENTAL'] = '0'
+    e['RUSTC_ICE'] = '0'   # never drop rustc-ice-*.txt files into the analysed tree
     t0 = time.time()
     r = subprocess.run(['cargo', '+nightly', 'check', '--offline', '--lib', '--quiet'], cwd=repo, env=e,
                        stdout=subprocess.PIPE, stderr=subprocess.STDOUT, text=True)
